@@ -208,11 +208,13 @@ def handle (case impl : List String) : Verdict :=
       let v := v.withDiff (impl.getD 0 "" != hex16 h) s!"digest: model {hex16 h}"
       let v := v.withDiff (impl.getD 3 "" != "0") "harness predecessor computation no longer matches step"
       let bad := (impl.getD 1 "").toNat?.getD 0
+      let implAtEnd := (impl.getD 4 "").toNat?.getD 0
       let v := v.withDiff (bad != atEnd + other) s!"out-of-range count: model {atEnd + other}"
+      -- the spec judgement uses the implementation's own numbers only
       if bad == 0 then v
-      else if bad == atEnd && other == 0 then
+      else if bad == implAtEnd then
         v.withSpec true "uniform-f32-returns-end" s!"{bad} mantissas in block give a sample equal to end; first m={impl.getD 2 ""}"
-      else v.withSpec true "uf32-out-of-range" s!"{bad} samples outside [start,end); first m={impl.getD 2 ""}"
+      else v.withSpec true "uf32-out-of-range" s!"{bad - implAtEnd} samples outside [start,end]; first bad m={impl.getD 2 ""}"
     | _, _, _, _ => bad "fdig"
   | _ => bad "unknown op"
 
